@@ -2,7 +2,8 @@
 
 spec/codec/TLSCodec.tla (Enc / Dec of RFC 5246 section 4 over type descriptors and segmented byte
 strings, the three laws), MCTLSCodec.tla (families of type shapes from the tag grammar x values x
-byte-string mutations).  TLC checks the laws on the model for every case and exports every case with
+byte-string mutations; family "bound": every tag bound at both ends of every width class, 0 included,
+x every spelling of the tag x every place a tag can stand).  TLC checks the laws on the model for every case and exports every case with
 the model's Enc / Dec results; harness/c09 builds the Go types with reflect.StructOf and compares
 tls.Marshal[WithParams] / tls.Unmarshal[WithParams] with the model case by case (TestReplay), then
 runs seeded random types / values / byte strings against the reference codec that the replay ties to
@@ -28,14 +29,23 @@ LEVEL = "model_checking"
 ASSUME = [
     "type shapes: the families of MCTLSCodec.tla (single member, all pairs of kinds, triples / nesting depth 3 / "
     "vectors of structs and of integers over a reduced kind list, selects in four layouts with six arm kinds, "
-    "vectors at the 2^16 and 2^24 boundaries) plus seeded random types of nesting <= 3; empty structs, fixed arrays "
-    "of non-bytes and maxlen:0 are outside the documented grammar",
+    "vectors at the 2^16 and 2^24 boundaries; family 'bound': every tag bound at both ends of every width class - 0, 1, "
+    "255, 256, 2^16-1, 2^16, ... 2^56-1, 2^56, 2^64-1 - carried by maxval, by minlen:0,maxlen / maxlen alone / "
+    "maxlen,minlen:0 on opaque vectors and by maxlen on a vector of uint16, placed as the params of "
+    "MarshalWithParams / UnmarshalWithParams, as the only member, between a uint8 and a uint16, as the chosen and as "
+    "an unchosen arm of a select) plus seeded random types of nesting <= 3 (one-byte bounds from 0, the three "
+    "spellings of a vector tag); empty structs, fixed arrays of non-bytes, size:0, minlen > maxlen and the order "
+    "selector:,val: before the type clauses of an arm are outside the documented grammar / not driven",
     "values per member: 0, all-bytes-distinct, maximum, one past the maximum (where the Go carrier can hold it); "
     "vector lengths min-1, min, max, max+1; byte strings: the encoding, +1 trailing byte, truncations, every "
     "literal byte +-1 (length prefix +-1, > max, < min, selector without arm), random mutations",
     "named clause EnumBoundIsWidth: an enum is bounded by its width, not by maxval (RFC 5246 4.5), in both directions",
+    "named clause MaxlenZeroIsWidth: a vector tagged maxlen:0 (minlen is then 0) has a one-byte length prefix and no "
+    "declared range: tls.go reads maxlen 0 as 'no range given', so both directions accept 0..255 bytes; the lower edge "
+    "of the width rule (a bound of 0 still takes one byte: RFC 5246 4.3 / 4.5) is asserted for maxval:0 and maxlen:0",
     "'no out-of-bounds read' is Go memory safety (a panic is a violation); 'allocation the input justifies' is "
-    "TotalAlloc per decode <= (64 + 2*sizeof(largest vector element type)) * len(input) + 8 KiB",
+    "TotalAlloc per decode <= (64 + 2*sizeof(largest vector element type) + 256 if some vector has struct elements: "
+    "the reflective decoder's bookkeeping per element) * len(input) + 8 KiB",
     "concurrent callers: rounds of a solo call | none, a wave of 2 / 4 / 8 goroutines released together, a solo call "
     "| none, on struct types never seen by the process (renamed members); interleavings inside a wave are whatever "
     "the scheduler gives (no hooks inside tls), each round is executed several times; data races are judged by the "
